@@ -27,7 +27,7 @@ func (vt *Model) c0(r rune) {
 func (vt *Model) bs() {
 	vt.lastCol = false
 	if vt.cursor.col == vt.margin.left {
-		if vt.cursor.row == vt.margin.top {
+		if vt.cursor.row == vt.margin.top || vt.cursor.row == 0 {
 			return
 		}
 		// reverse wrap
